@@ -14,8 +14,8 @@
            well-formed algebra over every commutative ring.
    Part 3  the statements used by Props/C11.v. *)
 From Coq Require Import String List ZArith Bool Lia Permutation Ring_theory Ring Morphisms.
-From KV Require Import Model.All Model.Composite Model.Tape Gen.Dunder.
-From KV Require Import Theory.WF Theory.Sparse Theory.Product Theory.Ops Theory.OpsWF Theory.Natural.
+From KV Require Import Model.All Model.Composite Model.Poly Model.Tape Gen.Dunder.
+From KV Require Import Theory.WF Theory.Sparse Theory.Product Theory.Ops Theory.OpsWF Theory.Poly Theory.Natural.
 Import ListNotations.
 Local Open Scope Z_scope.
 
@@ -2202,3 +2202,56 @@ Example outside_members : mlookup "__ror__" tape_methods = None /\ mlookup "__ra
   /\ mlookup "__rrshift__" tape_methods = None /\ mlookup "__rmatmul__" tape_methods = None
   /\ mlookup "__rtruediv__" tape_methods = None /\ mlookup "exp" tape_methods = None /\ mlookup "asfullmv" tape_methods = None.
 Proof. vm_compute. repeat split. Qed.
+
+(* ================= 4. the symbolic=True route (partial) ================= *)
+(* alg.register(symbolic=True)(f) is OperatorDict(codegen=f): do_codegen runs the plain function f on
+   symbolic multivectors over RationalPolynomial - i.e. [direct] over the coefficient structure Rops, where
+   every operator call is followed by OperatorDict.filter (drop the coefficients that test zero) - and the
+   resulting coefficient polynomials are evaluated at the argument values.  One step of that computation
+   commutes with evaluation for every polynomial operator of the table (naturality, Theory/Natural.v
+   C12_rpoly_subst2, and soundness of the zero filter, filter_rpoly_equiv).
+   NOT proved: the induction over [expr] that assembles these steps into "the symbolic route agrees with
+   [direct] on values" for the division-free fragment; and the route is known to FAIL for sqrt / norm /
+   normalized (known finding F18: RationalPolynomial ** 0.5), which no such theorem can cover. *)
+Theorem symbolic_step_partial : forall (R : Type) (rO rI : R) (radd rmul rsub : R -> R -> R) (ropp : R -> R)
+    (Rth : ring_theory rO rI radd rmul rsub ropp (@eq R)) (rho : nat -> R) (A : alg), wf_alg A = true ->
+  forall op f, sassoc op poly2_table = Some f ->
+  forall X Y : mv rpoly, all_coeffs rpolyQ X -> all_coeffs rpolyQ Y ->
+    Sparse.equiv rO rI radd rmul rsub ropp
+      (map_mv (Poly.N R rO rI radd rmul ropp rho) (filter_nz rzero (f rpoly Rops A X Y)))
+      (f R (mkOps R radd rsub rmul ropp rO rI) A (map_mv (Poly.N R rO rI radd rmul ropp rho) X)
+                                                 (map_mv (Poly.N R rO rI radd rmul ropp rho) Y)).
+Proof.
+  intros R rO rI radd rmul rsub ropp Rth rho A Hwf op f Hs X Y HX HY.
+  pose proof (poly2_good R rO rI radd rmul rsub ropp Rth A Hwf op f Hs) as G.
+  rewrite <- (C12_rpoly_subst2 R rO rI radd rmul rsub ropp Rth rho f (g2_nat _ _ _ _ _ _ _ _ f G) A X Y HX HY).
+  apply (filter_rpoly_equiv R rO rI radd rmul rsub ropp Rth rho).
+  - apply (g2_wf _ _ _ _ _ _ _ _ f G).
+  - apply (rel_closed2 Rops rpolyQ Rops_closed f (g2_nat _ _ _ _ _ _ _ _ f G)); assumption.
+Qed.
+
+(* ================= 5. a closed instance (non-vacuity) ================= *)
+Section ExampleZ.
+  Local Open Scope Z_scope.
+  Definition exA : alg := mk_default [1; 1] 1 false.
+  (* g0(a, b) = a*b + 2 ;  f(a, b) = a.e21 * (7 - b.grade(1)) + g0(a, ~b) ** 2 *)
+  Definition exbodies : list (expr Z) :=
+    [EInfix IAdd (EInfix IMul (EArg 0) (EArg 1)) (ENum 2);
+     EInfix IAdd (EInfix IMul (ECoeff (EArg 0) [2; 1]%nat) (EInfix ISub (ENum 7) (EGrade (EArg 1) [1%nat])))
+                 (EPow (ECall 0 [EArg 0; EPrefix PInvert (EArg 1)]) 2)].
+  Definition exargs : list (mv Z) := [[(3, 4); (1, 3); (2, 5)]; [(2, 1); (0, 2); (1, -1)]].
+  Example example_agrees :
+    exists v m, plain_call Zops exA (std_opd Zops exA no_ext) mv_methods tape_methods exbodies 40 1 exargs = Ok v /\
+                registered Zops exA (std_opd Zops exA no_ext) tape_methods exbodies 40 1 exargs = Ok m /\
+                Permutation m (as_mv v) /\ m <> [].
+  Proof.
+    assert (Hwf : wf_alg exA = true) by (vm_compute; reflexivity).
+    destruct (plain_call Zops exA (std_opd Zops exA no_ext) mv_methods tape_methods exbodies 40 1 exargs) as [v|e] eqn:Hp;
+      [|vm_compute in Hp; discriminate].
+    destruct (tape_agrees Z 0 1 Z.add Z.mul Z.sub Z.opp InitialRing.Zth exA Hwf no_ext (no_ext_ok Z exA) exbodies 40 1
+                (nth 1 exbodies (ENum 0)) exargs v) as [m [Hm [Hpm _]]]; try (vm_compute; reflexivity).
+    - repeat constructor; cbn; intuition (try discriminate; try lia; auto).
+    - exact Hp.
+    - exists v, m. repeat split; try assumption. intros E. subst m. vm_compute in Hm. discriminate.
+  Qed.
+End ExampleZ.
